@@ -64,3 +64,39 @@ Proof. exact on_interrupt_contract. Qed.
 Theorem C01_stage_quiescent : forall s,
   match mode_of s with MSelect true _ _ | MClose | MExit => held s = [] | _ => True end.
 Proof. exact quiescent_holds_nothing. Qed.
+
+(** ---- liveness half (no deadlock). On ANY schedule of a link of data-preserving toxics: a state
+    in which nothing can move (no stage, not the reader) and nothing is pending (no timer, no pause
+    of the receiver, no source event) is a completed transfer - nothing is held anywhere, the
+    receiver has exactly what the sender wrote, and if the sender closed then every stage has exited
+    and the receiver has been closed. Proved through the closure-order invariant of
+    Proofs/Progress.v (stub i+1's input is closed exactly when stub i has closed; a stage closes only
+    after its input was closed and drained). *)
+From TP Require Import Proofs.Progress Proofs.C01Live.
+
+Theorem C01_no_deadlock : forall chain src draws sd sigma l,
+  chain_ok chain ->
+  sched_run (link_init_slow chain src draws sd) sigma = Some l ->
+  step_now l = None -> next_time l = None ->
+  flow (l_stubs l) = [] /\
+  match l_rd l with
+  | RSend _ => False
+  | RIdle => l_rest l = [] /\ l_src l = [] /\ sink_bytes l = src_bytes src
+  | RClosed => sink_bytes l = src_bytes src /\ Forall (fun s => s_st s = Exited) (l_stubs l) /\ l_sink_closed l <> None
+  end.
+Proof. exact c01_no_deadlock. Qed.
+
+(** the executable run - the one compared with the real code to the nanosecond - stops only when
+    the transfer is complete (or at the horizon / out of fuel, which the statement excludes) *)
+Theorem C01_complete : forall chain src draws sd fuel horizon l,
+  chain_ok chain ->
+  run_quiet fuel horizon (link_init_slow chain src draws sd) = Some l ->
+  next_time l = None ->
+  sink_bytes l = src_bytes src /\ flow (l_stubs l) = [] /\
+  (l_rd l = RClosed -> Forall (fun s => s_st s = Exited) (l_stubs l) /\ l_sink_closed l <> None).
+Proof. exact c01_complete. Qed.
+
+(** the invariant itself, one step of any schedule *)
+Theorem C01_closure_order_step : forall l a l',
+  link_ok l -> static_link l -> closure_inv l -> sched_step l a = Some l' -> closure_inv l'.
+Proof. exact closure_step. Qed.
